@@ -29,6 +29,12 @@ from ..refeval import RefEval
 
 THEOREMS = ["Pt.broadcast_eq_numpy", "Pt.ptAxisLen_eq_np", "Pt.dtype_rows_agree", "Pt.dtype_chunks_agree"]
 THEOREMS_SLICE = ["Pt.slice_norm_eq_cpython", "Pt.slice_len_eq_cpython"]
+# shape rules of matmul / dot / vdot / pad: model of /repo's code (PtModel/ContractShape.lean) = NumPy's documented
+# rule stated independently (PtProofs/ContractShape.lean)
+THEOREMS_CONTRACT = ["Pt.Contract.matmul_eq_spec", "Pt.Contract.matmul_refuses_stretched_contraction",
+                     "Pt.Contract.matmul_rank", "Pt.Contract.dot_eq_spec", "Pt.Contract.dot_rank",
+                     "Pt.Contract.vdot_eq_spec", "Pt.Contract.vdot_rank", "Pt.Contract.pad_accepts_iff",
+                     "Pt.Contract.pad_refuses_negative", "Pt.Contract.pad_shape"]
 
 
 def batch_dtype_table(ctx):
@@ -238,6 +244,72 @@ def batch_validation(ctx):
             cases += 1
             dis += _cmp(ctx, f"{nm}:{s1},{s2}", fpt, fnp, stats)
     ctx.note_batch("argument-validation-vs-numpy", cases, dis, exhaustive=False, **stats)
+
+
+def batch_contract_shape_model(ctx):
+    """the Lean MODEL of the shape rules of matmul / dot / vdot / pad (`Pt.Contract.*`, proved equal to NumPy's
+    documented rule for all ranks) vs the REAL pytato: accept / reject and result shape for ALL ordered pairs of
+    shapes of rank 0..3 over lengths that contain 0 and 1, mixed-rank pairs of rank 4 / 5, and for pad every shape
+    x width patterns incl. negative widths and lists of the wrong length.  A disagreement is a broken
+    correspondence; pairs with a zero-length axis are also compared with NumPy here (the others in
+    `batch_validation`), which is the failing-input search"""
+    import pytato as pt
+    stats = {"both_accept": 0, "both_reject": 0, "pytato_rejects_numpy_accepts": 0, "pytato_accepts_numpy_rejects": 0}
+    lens = (0, 1, 2, 3) if ctx.thorough else (0, 1, 3)
+    shapes = [sh for r in range(4) for sh in itertools.product(lens, repeat=r)]
+    pairs = list(itertools.product(shapes, repeat=2))
+    pairs += [((2, 3, 2, 4), (3, 4, 5)), ((3, 4, 5), (2, 3, 5, 2)), ((2, 3, 2, 4), (2, 4, 5)), ((2, 1, 3, 2, 4), (3, 4, 2)),
+              ((2, 3, 2, 4), (1, 4, 3)), ((4,), (2, 3, 4, 2)), ((2, 3, 4, 2), (3,)), ((5, 2, 3, 2, 4), (5, 4, 2)),
+              ((1, 1, 2, 1), (3, 1, 1)), ((2, 3, 2, 1), (3, 4, 5)), ((3,), (2, 2, 1, 3))]
+
+    def sh(s_):
+        return "(" + " ".join(str(d) for d in s_) + ")"
+
+    def real_shape(f):
+        try:
+            r = f()
+            return tuple(int(d) for d in r.shape)
+        except (ValueError, TypeError, NotImplementedError, IndexError):
+            return None
+    queries, recs = [], []
+    cases = dis = 0
+    for s1, s2 in pairs:
+        x1, x2 = pt.make_placeholder("m1", s1, np.float64), pt.make_placeholder("m2", s2, np.float64)
+        for nm, fpt, fnp in (("matmul", lambda: pt.matmul(x1, x2), lambda: np.matmul(np.zeros(s1), np.zeros(s2))),
+                             ("dot", lambda: pt.dot(x1, x2), lambda: np.dot(np.zeros(s1), np.zeros(s2))),
+                             ("vdot", lambda: pt.vdot(x1, x2), lambda: np.vdot(np.zeros(s1), np.zeros(s2)))):
+            cases += 1
+            if 0 in s1 or 0 in s2 or len(s1) > 3 or len(s2) > 3:
+                dis += _cmp(ctx, f"{nm}:{s1},{s2}", fpt, fnp, stats)
+            recs.append((nm, s1, s2, real_shape(fpt)))
+            queries.append(f"(cshape {nm} {sh(s1)} {sh(s2)})")
+    wpat = [(0, 0), (1, 2), (0, -1), (-1, 0), (2, 0), (-2, -1)]
+    for s_ in shapes:
+        x = pt.make_placeholder("x", s_, np.float64)
+        nd = len(s_)
+        wlists = [tuple([w] * nd) for w in wpat]
+        if nd >= 2:
+            wlists += [((1, 0),) + tuple([w] * (nd - 1)) for w in wpat] + [tuple([w] * (nd - 1)) + ((0, 1),) for w in wpat[2:4]]
+        wlists += [tuple([(0, 0)] * (nd + 1)), tuple([(1, 1)] * (nd + 2))]
+        if nd >= 3:
+            wlists.append(tuple([(0, 0)] * (nd - 1)))
+        for ws in wlists:
+            if len(ws) == 1 and nd != 1:
+                continue        # a single pair is NumPy's "same widths on every axis" spelling, not a per-axis list
+            cases += 1
+            recs.append(("pad", s_, ws, real_shape(lambda: pt.pad(x, ws))))
+            queries.append(f"(cshape pad {sh(s_)} (" + " ".join(f"({b} {a})" for b, a in ws) + "))")
+    ans = common.driver_query_parallel(queries)
+    agree = 0
+    for (nm, s1, s2, real), a in zip(recs, ans):
+        model = None if a == "ok none" else (tuple(int(t) for t in a[4:-1].split()) if a.startswith("ok (") else a)
+        if model == real:
+            agree += 1
+        else:
+            dis += 1
+            ctx.broken.append(f"correspondence:contract-shape-model:{nm}:{s1}:{s2}:real={real}:model={model}")
+    ctx.note_batch("contract-shape-model-vs-real", cases, dis, exhaustive=True, agreeing=agree, lengths=list(lens),
+                   **{k: v for k, v in stats.items() if v})
 
 
 def batch_dtype_nary(ctx):
@@ -528,8 +600,10 @@ def run(ctx: common.Ctx):
     batch_dtype_table(ctx)
     ctx.lean_obligations("PtProofs.C03", THEOREMS, extra_targets=["PtGen.Dtypes"])
     ctx.lean_obligations("PtProofs.SliceLemmas", THEOREMS_SLICE)
+    ctx.lean_obligations("PtProofs.ContractShape", THEOREMS_CONTRACT)
     batch_broadcast(ctx)
     batch_validation(ctx)
+    batch_contract_shape_model(ctx)
     batch_degenerate_shortcuts(ctx)
     batch_axis_tuples(ctx)
     batch_dtype_nary(ctx)
